@@ -59,3 +59,9 @@ claim("C15",
   "Decides for all K/OP/RAND/SQN/AMF the table facts of TS 35.206 the implementation rests on (r1..r5, c1..c5, which half of which OUT block is which output, IN1 and AUTN layouts, OPc) and the two-sided acceptance logic: the comparison helper's result has the sign of the first differing octet and is 0 only for equal buffers, freshness is decided over all 6 SQN octets, MAC-A and MAC-S are compared over all 8 octets, and the resynchronisation token is built over the UE's SQN with AMF 0000.",
   "Level 'other'. Trusted: crypto/aes. Not decided: numerical equality with TS 35.208 vectors (nothing is executed).",
   "DESIGN.md §5 C15")
+
+claim("C20",
+  "shared-state reachability over the VTA whole-program call graph: every repository package-level variable touched by a function reachable from the codec/security entry points is classified (writers outside init, address escapes, mutability of its kind); goroutine/channel scan",
+  "Decides for every schedule at once that no mutable package-level state is reachable from NGAP/APER/NAS encode+decode, NASEncode/NASDecode, key derivation and NASEncrypt/NASMacCalculate other than the recorded SNOW 3G generator state (known finding F18: NEA1/NIA1 are not safe concurrently). For code that starts no goroutine and holds no lock this is exactly what makes concurrent use for different UEs race-free and schedule-independent; a new cache, counter or scratch buffer at package level - synchronised or not - is reported with its writers.",
+  "Level 'other'. Trusted: logrus handles are internally locked, reflect.Type is immutable, dependencies are race-free. Known finding F18 (snow3g.lfsr/fsm) is listed in known_findings.json with its demonstration.",
+  "DESIGN.md §5 C20")
